@@ -17,10 +17,11 @@ def build_model(group):
     for j, r in enumerate(group):
         if r.get("via"):
             # the singular argument goes through the intermediate w<j> (depends on a state)
-            lines += [f"w{j} = {' '.join(r['via_w'])}", f"ds{j}_dt = {' '.join(f'w{j}' if t == 'w' else t for t in r['via_body'])}"]
+            lines += [f"w{j} = {' '.join(r['via_w'])}", f"k{j} = 2 * w{j}", f"ds{j}_dt = {' '.join(f'w{j}' if t == 'w' else t for t in r['via_body'])}"]
         else:
             # the same name, this time an intermediate of parameters only (never the singular variable)
-            lines += [f"w{j} = a - 2", f"ds{j}_dt = {' '.join(r['toks'])}"]
+            # (k<j> reads it, so the library has to classify it)
+            lines += [f"w{j} = a - 2", f"k{j} = 2 * w{j}", f"ds{j}_dt = {' '.join(r['toks'])}"]
     lines += ["dx_dt = 0", "dy_dt = 0"]
     return "\n".join(lines) + "\n"
 
